@@ -185,7 +185,7 @@ def mutate(rng, s, seeds):
                 s[p:] = t[rng.randrange(2, len(t)):]
         elif k == 9 and len(s) > 2:
             # a C/D code with (possibly) nothing before it
-            p = rng.choice([2, 2, 3, rng.randrange(2, len(s) + 1)])
+            p = rng.choice([2, rng.randrange(2, len(s) + 1), rng.randrange(2, len(s) + 1), rng.randrange(2, len(s) + 1)])
             s[p:p] = rng.choice([b"C1", b"D0", b"C2", b"D1", b"CI1", b"D2"])
     return bytes(b for b in s if b != 0)[:600]
 
@@ -246,7 +246,7 @@ def run(ctx):
     rng = ctx.rng
     gen = load_gen()
     # ---- (a) compiled corpus: expected results come from the declarations
-    comp, cinfo = compiled_corpus(ctx, gen, 2 if quick else 12, 110 if quick else 160, 60 if quick else 150)
+    comp, cinfo = compiled_corpus(ctx, gen, 2 if quick else 16, 170 if quick else 220, 60 if quick else 200)
     # ---- (b) the repo's own names
     vectors, tnames = repo_names(ctx, tables)
     sysn = system_names(300 if quick else 100000, rng)
@@ -286,18 +286,18 @@ def run(ctx):
     weighted = [c[0] for c in cases if c[2].startswith(("compiled", "unit-test"))] * 3 + seeds
     # ---- (c) mutations
     # truncation at every length
-    ntrunc = 30 if quick else 400
+    ntrunc = 30 if quick else 1500
     for s in rng.sample(weighted, min(ntrunc, len(weighted))):
         for k in range(2, len(s)):
             add(s[:k], None, "truncate")
-    nmut = 6000 if quick else 150000
+    nmut = 6000 if quick else 600000
     for _ in range(nmut):
         add(mutate(rng, rng.choice(weighted), seeds), None, "mutate")
     # token soup
-    for _ in range(1500 if quick else 40000):
+    for _ in range(1500 if quick else 150000):
         add(b"_Z" + b"".join(rng.choice(TOKENS) for _ in range(rng.randrange(1, 12))), None, "tokens")
     # ---- (d) random bytes
-    for _ in range(1000 if quick else 30000):
+    for _ in range(1000 if quick else 100000):
         pre = rng.choice([b"_Z", b"_ZN", b"_ZT", b"_GLOBAL__sub_I__Z", b"", b"_"])
         add(pre + bytes(rng.randrange(1, 256) for _ in range(rng.randrange(0, 24))), None, "random")
 
@@ -305,7 +305,7 @@ def run(ctx):
     errfile = os.path.join(ctx.scratch, "h_c13.err")
     env = dict(os.environ, ASAN_OPTIONS="detect_leaks=0:allocator_may_return_null=1:handle_abort=1",
                UBSAN_OPTIONS="print_stacktrace=0")
-    r = subprocess.run([exe, errfile, "2"], input="\n".join(hexes) + "\n", stdout=subprocess.PIPE,
+    r = subprocess.run([exe, errfile, "300", "60" if quick else "1500"], input="\n".join(hexes) + "\n", stdout=subprocess.PIPE,
                        stderr=subprocess.PIPE, text=True, env=env, timeout=3000)
     lines = r.stdout.split("\n")
     models = [l[6:] for l in lines if l.startswith("MODEL ")]
@@ -313,6 +313,16 @@ def run(ctx):
     if r.returncode != 0 or len(models) != len(cases) or len(impls) != len(cases):
         C.violation(ctx, "harness", {"kind": "harness-failed", "rc": r.returncode, "stderr": r.stderr[-2000:],
                                      "cases": len(cases), "got": [len(models), len(impls)]}, True)
+        return C.finish(ctx)
+    nskip = sum(1 for i in impls if i == "SKIP")
+    if nskip:
+        first = impls.index("SKIP")
+        hangs = [cases[i][0].decode("latin-1") for i in range(first) if impls[i] == "HANG"]
+        C.violation(ctx, "hangs", {"kind": "property-violated-on-implementation",
+                                   "what": "demangle() did not return within 0.3 s CPU time on %d inputs; run abandoned" % len(hangs),
+                                   "inputs": hangs[:10], "input": hangs[0] if hangs else None,
+                                   "input_hex": hangs[0].encode("latin-1").hex() if hangs else None,
+                                   "theorem": "c13_fuel_suffices"}, no_failing_input=False)
         return C.finish(ctx)
     mout = C.run_model("C13", models)
 
@@ -458,7 +468,7 @@ def replay(ctx, path):
         print(log)
         return 2
     env = dict(os.environ, ASAN_OPTIONS="detect_leaks=0:allocator_may_return_null=1")
-    p = subprocess.run([exe, os.path.join(ctx.scratch, "err"), "2"], input=r["input_hex"] + "\n",
+    p = subprocess.run([exe, os.path.join(ctx.scratch, "err"), "2000"], input=r["input_hex"] + "\n",
                        stdout=subprocess.PIPE, text=True, env=env)
     impl = [l[5:] for l in p.stdout.split("\n") if l.startswith("IMPL ")]
     m = C.run_model("C13", ["dm " + r["input_hex"], "dmpre " + r["input_hex"]])
